@@ -119,6 +119,34 @@ CHECKS = {
         note=TRUST + " unittest.mock is trusted.",
         design="4 C19",
     ),
+    "C15": dict(
+        level="exploration",
+        technique="runtime monitoring: three-way differential (asyncio.run(fn.asyncio()) vs fn() vs sequential reference), delivery-time probes, concurrent observer coroutine for the mode flag",
+        text="Batch-free programs in 9 calling styles (incl. explicit asyncio_fn): asyncio outcome and everything each task received equal the asynq run and the reference; at every exception delivery all awaited tasks of that yield have finished; is_asyncio_mode() is False before/after (also on failure) and in a concurrent observer coroutine; a plain sync call inside raises RuntimeError.",
+        note=TRUST + " Restricted to what resolve_awaitables supports (no items, ErrorFuture, lazy Future, result(), contexts).",
+        design="4 C15",
+    ),
+    "C16": dict(
+        level="exploration",
+        technique="runtime monitoring under real threads: per-thread digests vs solo runs, ownership probes at every hook, switch interval 1e-6 s plus injected yields; switches and interleavings counted",
+        text="2/4/8/16 threads run seeded programs, a shared-arguments deduplicate scenario and (separately) COLLECT_PERF_STATS concurrently: each thread's per-round digest (outcome, full event log, dedup executions, profiler entries) equals its solo run; every step/flush/priority/context callback runs on its owner thread with its own scheduler and active task; DebugBatches and deduplicated tasks are never shared.",
+        note=TRUST + " OS interleavings are sampled, not enumerated; evidence reports switches observed.",
+        design="4 C16",
+    ),
+    "C18": dict(
+        level="exploration",
+        technique="runtime monitoring: traceback/stack oracles on generated chains, differential + structural oracle for filter_traceback, totality probes (str/repr/dump) at in-step, in-flush and post-run points",
+        text="Generated chains up to depth 12 (thorough 60) with raises, re-raises and batch awaits: traceback user frames are exactly lvl0..lvl(d-1) ending at the raising frame, format_asynq_stack lists the creator chain; filter_traceback equals an independent reference on assembled texts incl. partial runs at the very end; format_error total over error kinds x tb x highlight x filter; str/repr/debug.str/debug.repr/dump of every object kind in every state never raise nor compute anything.",
+        note=TRUST + " pygments trusted.",
+        design="4 C18",
+    ),
+    "C20": dict(
+        level="exploration",
+        technique="runtime monitoring: full event-log differential of each program under default options vs option subsets (each single option, all, random), scripted profiling clock, captured diagnostics",
+        text="Programs with sync re-entry, synchronous item.value(), failures and several batch kinds (unique priorities => deterministic default trace) are re-run under option subsets of the 19 boolean debug options, with dump interval 0 and a scripted clock reporting 1 us..3 h per call when profiling: outcome and the complete harness event log must be identical, on both builds; per-option reach is shown by captured diagnostic bytes / profiler entries.",
+        note=TRUST + " Programs whose default trace is not reproducible are skipped and counted.",
+        design="4 C20",
+    ),
 }
 
 NOT_BUILT = "check not built yet in this session (work in progress; the design in DESIGN.md section 4 applies)"
